@@ -10,6 +10,11 @@ set_option linter.unusedVariables false
 namespace RingBuffer
 open Extracted.RingBuffer
 
+/-- Meaning of the translated rounding test, whatever the order of its `and` / `or` operands in the source. -/
+theorem normRoundUp_iff (r q h : Int) : normRoundUp r q h ↔ (r ≠ 0 ∧ ((h = r ∧ q % 2 ≠ 0) ∨ h < r)) := by
+  unfold normRoundUp
+  constructor <;> intro hx <;> omega
+
 theorem slotTime_le_iff (c : Cfg) (hp : 0 < c.period) (x y : Int) : slotTime c x ≤ slotTime c y ↔ x ≤ y := by
   unfold slotTime
   constructor
@@ -41,7 +46,7 @@ theorem normSlot_slotTime (c : Cfg) (hp : 0 < c.period) (k : Int) : normSlot c (
   have h0 : c.period ≠ 0 := by omega
   have e : c.align + k * c.period - c.align = k * c.period := by omega
   rw [e, Int.mul_ediv_cancel _ h0, Int.mul_emod_left]
-  simp [normRoundUp]
+  simp [normRoundUp_iff]
 
 /-- Decomposition of a timestamp: floor quotient and remainder. -/
 theorem divmod_spec (c : Cfg) (hp : 0 < c.period) (ts : Int) :
@@ -58,7 +63,7 @@ theorem normSlot_mono (c : Cfg) (hp : 0 < c.period) {x y : Int} (h : x ≤ y) : 
   obtain ⟨ey, hy0, hyp⟩ := divmod_spec c hp y
   have hq : (x - c.align) / c.period ≤ (y - c.align) / c.period := Int.ediv_le_ediv hp (by omega)
   unfold normSlot
-  simp only [normRoundUp]
+  simp only [normRoundUp_iff]
   generalize hqx : (x - c.align) / c.period = qx at *
   generalize hqy : (y - c.align) / c.period = qy at *
   generalize hrx : (x - c.align) % c.period = rx at *
@@ -96,7 +101,7 @@ theorem normSlot_nearest (c : Cfg) (hp : 0 < c.period) (he : c.period % 2 = 0) (
   obtain ⟨e, h0, hlt⟩ := divmod_spec c hp ts
   have hh := halfPeriod_even c.period he
   unfold normSlot
-  simp only [normRoundUp]
+  simp only [normRoundUp_iff]
   generalize hq : (ts - c.align) / c.period = q at *
   generalize hr : (ts - c.align) % c.period = r at *
   generalize halfPeriod c.period = h at *
